@@ -20,7 +20,7 @@ import (
 
 type c11Case struct {
 	Name  string   `json:"name"`
-	Shape string   `json:"shape"` // seq | par | behind | never | twin
+	Shape string   `json:"shape"` // seq | par | behind | never | twin | shared | merge
 	Kind  string   `json:"kind"`  // signal | message | messageop
 	Hist  []string `json:"hist"`  // "e:<ref>" deliver event, "a:<task>" answer task (skipped if not pending)
 	Hooks bool     `json:"hooks"`
@@ -93,6 +93,26 @@ func c11Graph(c *c11Case) (*gen.Graph, map[string]string) {
 		g.Connect(t0, c1, nil)
 		g.Connect(c1, t1, nil)
 		g.Connect(t1, e, nil)
+	case "shared":
+		// two tokens wait at one catch event at the same time
+		t0, f, c1, t1, e := g.Add(gen.Task, "t0", ""), g.Add(gen.And, "fork", ""), catch("c1", "r1"), g.Add(gen.Task, "t1", ""), g.Add(gen.End, "end", "")
+		g.Connect(s, t0, nil)
+		g.Connect(t0, f, nil)
+		g.Connect(f, c1, nil)
+		g.Connect(f, c1, nil)
+		g.Connect(c1, t1, nil)
+		g.Connect(t1, e, nil)
+	case "merge":
+		// two tokens reach one catch event at moments the history chooses: together, or the second after the first was released
+		f, t0, t2, xm, c1, t1, e := g.Add(gen.And, "fork", ""), g.Add(gen.Task, "t0", ""), g.Add(gen.Task, "t2", ""), g.Add(gen.Xor, "xm", ""), catch("c1", "r1"), g.Add(gen.Task, "t1", ""), g.Add(gen.End, "end", "")
+		g.Connect(s, f, nil)
+		g.Connect(f, t0, nil)
+		g.Connect(f, t2, nil)
+		g.Connect(t0, xm, nil)
+		g.Connect(t2, xm, nil)
+		g.Connect(xm, c1, nil)
+		g.Connect(c1, t1, nil)
+		g.Connect(t1, e, nil)
 	case "never":
 		x := g.Add(gen.Xor, "x", "")
 		cn, tn := catch("cn", "r2"), g.Add(gen.Task, "tn", "")
@@ -128,6 +148,10 @@ func c11Alphabet(shape string) []string {
 		return []string{"e:r1", "e:zz", "x:r1", "a:t0", "a:t1"}
 	case "never":
 		return []string{"e:r1", "e:r2", "e:zz", "x:r1", "a:t1"}
+	case "shared":
+		return []string{"e:r1", "e:zz", "x:r1", "a:t0", "a:t1"}
+	case "merge":
+		return []string{"e:r1", "e:zz", "a:t0", "a:t2", "a:t1"}
 	}
 	return nil
 }
@@ -147,7 +171,7 @@ func c11Cases(tier string, seed uint64) []fw.Case {
 	rng := fw.NewRng(seed, "C11")
 	var cs []fw.Case
 	kinds := []string{"signal", "message", "messageop"}
-	for si, shape := range []string{"seq", "par", "twin", "behind", "never"} {
+	for si, shape := range []string{"seq", "par", "twin", "behind", "never", "shared", "merge"} {
 		alpha := c11Alphabet(shape)
 		// all histories up to length 4 over the events (answers are interleaved by PRNG below)
 		var hs [][]string
@@ -334,7 +358,7 @@ func init() {
 			v.Nontrivial = ne > 0
 			return v
 		},
-		Rule:        "processes with catch events in sequence, in parallel branches, two listeners for one event, behind a pending task, on a branch never taken; signal / message / message-with-operation definitions; all histories of length <= 4 (quick: length-4 strided) and PRNG histories of length 5..8 over {matching event per listener, non-matching event, task answers}, events delivered before, while and after the listeners are armed; after every step the pending requests must equal the reference (armed matching listeners continue exactly once, nothing else reacts) and no ConsumeEvent caller may still be blocked; non-trivial = history delivers at least one event; distinct = descriptor hash",
-		Assumptions: []string{"at most one token waits at a catch event at a time"},
+		Rule:        "processes with catch events in sequence, in parallel branches, two listeners for one event, two tokens waiting at one catch event (together, or one after the other was released), behind a pending task, on a branch never taken; signal / message / message-with-operation definitions; all histories of length <= 4 (quick: length-4 strided) and PRNG histories of length 5..8 over {matching event per listener, non-matching event, task answers}, events delivered before, while and after the listeners are armed; after every step the pending requests must equal the reference (armed matching listeners continue exactly once, nothing else reacts) and no ConsumeEvent caller may still be blocked; non-trivial = history delivers at least one event; distinct = descriptor hash",
+		Assumptions: []string{"a token waiting at a catch event is one listener: two tokens at one catch event both continue on one matching event"},
 	})
 }
